@@ -44,6 +44,33 @@ def one(kind, pid):
         elif pid.endswith("-twin"):
             demo = os.path.join(V, "seeded", pid[:-5], "demo.py")
             want_fail = False
+        dt = os.path.join(d, "difftest.py")
+        if kind == "benign" and os.path.exists(dt):
+            # the restructuring's own differential test (clean module vs working tree), now against the NORMALISED working tree
+            import re as _re
+            txt = _re.sub(r"/tmp/wt/rs-\w+", wt, open(dt).read())
+            dt2 = f"{wt}/.difftest_{pid}.py"
+            open(dt2, "w").write(txt)
+            rc, o = sh(f"timeout 1500 /venv/bin/python {dt2}", cwd=wt, env={"PYTHONPATH": "."})
+            os.remove(dt2)
+            tail_ = " ".join(o.strip().splitlines()[-1:])[:110]
+            if rc != 0:
+                # is the difftest sensitive to source formatting alone?  Re-run it on the patched tree written back by ast.unparse WITHOUT
+                # normalisation: if that differs as well, the result says nothing about the normaliser
+                wt2 = wt + "-rt"
+                sh(f"git -C /repo worktree remove --force {wt2}")
+                sh(f"git -C /repo worktree add -q --detach {wt2} HEAD")
+                sh(f"git apply --whitespace=nowarn {d}/patch.diff", cwd=wt2)
+                sh(f"/venv/bin/python - <<'PY'\nimport ast, os\nfor dp, dn, fns in os.walk('{wt2}/asyncfix'):\n    for fn in fns:\n        if fn.endswith('.py'):\n            p = os.path.join(dp, fn)\n            open(p, 'w').write(ast.unparse(ast.parse(open(p).read())) + '\\n')\nPY")
+                open(f"{wt2}/.dt.py", "w").write(_re.sub(r"/tmp/wt/rs-\w+", wt2, open(dt).read()))
+                rc_rt, _o = sh(f"timeout 1500 /venv/bin/python {wt2}/.dt.py", cwd=wt2, env={"PYTHONPATH": "."})
+                sh(f"git -C /repo worktree remove --force {wt2}")
+                if rc_rt != 0:
+                    res.append("difftest inconclusive: it compares source text (fails on a plain ast.unparse round trip of the un-normalised tree too)")
+                    rc = 0
+            if rc != 0 or "inconclusive" not in res[-1]:
+                res.append(f"difftest exit {rc}: {tail_}")
+            ok = ok and rc == 0
         if demo and os.path.exists(demo):
             rc, o = sh(f"/venv/bin/python {demo}", cwd=wt, env={"PYTHONPATH": "."})
             res.append(f"demo exit {rc}")
